@@ -1442,6 +1442,7 @@ void tNMEA2000::SetHeartbeatInterval(unsigned long interval, bool /*SetAsDefault
 
 //*****************************************************************************
 void tNMEA2000::SendHeartbeat(int iDev) {
+  if ( !IsActiveNode() ) return;
   if ( !IsValidDevice(iDev) ) return;
   tN2kMsg N2kMsg;
   SetHeartbeat(N2kMsg,Devices[iDev].HeartbeatScheduler.GetPeriod(),0xff);
